@@ -47,8 +47,8 @@ impl JavaString {
 impl Clone for JavaString { #[verifier::external_body] fn clone(&self) -> Self { unimplemented!() } }
 // TRUSTED: jstr_is(name, id) stands for `name == attribute::X` (PartialEq of JavaStr): true iff the string is that attribute name
 #[verifier::external_body] pub fn jstr_is(s: &VJavaStr, id: u8) -> (b: bool) ensures b == (attr_of_str(s) == id as int) { unimplemented!() }
-// TRUSTED: havoc_reader stands for the body of an arm that parses an attribute for an interested visitor: arbitrary position afterwards, data kept
-#[verifier::external_body] pub fn havoc_reader<Rd: ClassRead>(reader: &mut Rd) -> (res: Result<(), VErr>) ensures final(reader).data() == old(reader).data() { unimplemented!() }
+// TRUSTED: havoc_reader stands for the body of an arm that parses an attribute for an interested visitor: arbitrary non-negative position afterwards, data kept
+#[verifier::external_body] pub fn havoc_reader<Rd: ClassRead>(reader: &mut Rd) -> (res: Result<(), VErr>) ensures final(reader).data() == old(reader).data(), final(reader).pos() >= 0 { unimplemented!() }
 pub trait AnnotationsVisitor {}
 pub trait TypeAnnotationsVisitor<T> {}
 pub trait UnnamedElementValueVisitor {}
@@ -68,7 +68,7 @@ impl Clone for MethodName { #[verifier::external_body] fn clone(&self) -> Self {
 impl Clone for MethodDescriptor { #[verifier::external_body] fn clone(&self) -> Self { unimplemented!() } }
 // TRUSTED: read_code is opaque here (arbitrary position afterwards, data kept); units rscan/rdecode/rframes verify its parts
 #[verifier::external_body] pub fn read_code<C: CodeVisitor, Rd: ClassRead>(reader: &mut Rd, code_visitor: C, pool: &PoolRead, bootstrap_methods: &Option<Vec<BootstrapMethodRead>>) -> (res: Result<C, VErr>)
-    ensures final(reader).data() == old(reader).data() { unimplemented!() }
+    ensures final(reader).data() == old(reader).data(), final(reader).pos() >= 0 { unimplemented!() }
 
 // ---- the structures a declined item occupies (JVMS 4.5 / 4.6 / 4.7.30): u2 u2 u2 (u2 u2 for a record component) then an attribute table ----
 pub open spec fn attrs_end(d: Seq<u8>, p: int) -> int { attrs_end_k(d, p + 2, val16(d.subrange(p, p + 2)) as nat) }
@@ -198,7 +198,7 @@ def member_fn(u, name, level, vis_var, entry_bytes, end_spec, extra_rewrites=(),
          requires=[f'0 <= {p0}', f'{d0}.len() <= i64::MAX'],
          transform=havoc_interested_arms(u, name),
          rewrites=[NAME_EQ, LOOP] + list(extra_rewrites),
-         loops={0: dict(invariant=[C(f'C17.{name}.inv.data', f'reader.data() == {d0}')],
+         loops={0: dict(invariant=[C(f'C17.{name}.inv.data', f'reader.data() == {d0} && reader.pos() >= 0')],
                         body_start='let ghost p_attr = reader.pos(); ' + ghost_start)},
          asserts=[
              (('loop_end', 0), C(f'C17.{name}.declined-attribute-is-skipped-exactly',
@@ -206,7 +206,37 @@ def member_fn(u, name, level, vis_var, entry_bytes, end_spec, extra_rewrites=(),
                                  f') ==> reader.pos() == p_attr + 6 + length')),
              (('before', r'Ok\(visitor\)'), C(f'C17.{name}.declined-{level}-is-skipped-exactly', f'reader.pos() == {end_spec}({d0}, {p0})')),
          ] + list(extra_asserts),
-         ensures=[C(f'C17.{name}.data-untouched', f'final(reader).data() == {d0}')])
+         ensures=[C(f'C17.{name}.data-untouched', f'final(reader).data() == {d0} && (res.is_ok() ==> final(reader).pos() >= 0)')])
+
+
+def region(u, fn_name, start_re, end_re, what, end_block=False, include_end=False):
+    """text of `fn_name`'s body from the match of start_re up to (not including) the match of end_re;
+    end_block: end_re matches a block header and the region extends to that block's closing brace"""
+    s = u.src(R)
+    f = s.cut_fn(fn_name)
+    body, mask = f['body'], code_mask(f['body'])
+    m = re.search(start_re, mask)
+    if not m:
+        raise CutError(f'{fn_name}: region start /{start_re}/ not found')
+    e = re.compile(end_re).search(mask, m.end())
+    if not e:
+        raise CutError(f'{fn_name}: region end /{end_re}/ not found')
+    if include_end:
+        end = e.end()
+    elif end_block:
+        end = match_close(mask, mask.find('{', e.start())) + 1
+    else:
+        end = body.rfind('\n', 0, e.start()) + 1
+    u.drop(f'region of {fn_name} lifted into a function: {what}')
+    return dict(text=body[m.start():end], line=s.line_of(f['open'] + m.start()))
+
+
+MEMBERS_SPEC = r'''
+// k field_info / method_info structures starting at p; a table = u2 count + that many members; fields table then methods table
+pub open spec fn members_end_k(d: Seq<u8>, p: int, k: nat) -> int decreases k { if k == 0 { p } else { member_end(d, members_end_k(d, p, (k - 1) as nat)) } }
+pub open spec fn table_end(d: Seq<u8>, p: int) -> int { members_end_k(d, p + 2, val16(d.subrange(p, p + 2)) as nat) }
+pub open spec fn members_end(d: Seq<u8>, p: int) -> int { table_end(d, table_end(d, p)) }
+'''
 
 
 def build(u):
@@ -231,3 +261,99 @@ def build(u):
     member_fn(u, 'read_method', 'method', 'method_visitor', 6, 'member_end', ghost_start='let ghost mut code_read = false;',
               extra_rewrites=[(r'let code_visitor = read_code\(', 'proof { code_read = true; } let code_visitor = read_code(')])
     member_fn(u, 'read_record_component', 'component', 'record_component_visitor', 4, 'component_end')
+    build_read_regions(u)
+
+
+def build_read_regions(u):
+    d0, p0 = 'old(reader).data()', 'old(reader).pos()'
+    u.raw(MEMBERS_SPEC)
+    # ---- (A) magic and version check
+    u.const(CC, 'MAGIC')
+    u.item('duke/src/tree/version.rs', 'struct', 'Version', derives=['Clone', 'Copy'])
+    vs = u.src('duke/src/tree/version.rs')
+    cst = vs.cut_const('V23')
+    m = re.match(r'pub const V23: Version = (Version::new\([^;]*\));$', cst['text'].strip())
+    if not m:
+        raise CutError('tree/version.rs: `pub const V23: Version = Version::new(..);` not found')
+    # Verus: a const initialised by an exec fn has to be an `exec const`; its value gets a contract (JVMS Table 4.1-A: Java SE 23 = major 67)
+    u.drop('const Version::V23 -> `exec const` with an ensures clause (Verus cannot evaluate Version::new in a dual-mode const)')
+    u.segments.append(('impl Version {\n', None))
+    u.segments.append((f'pub exec const V23: Version ensures Self::V23.major == 67 && Self::V23.minor == 0 {{ {m.group(1)} }}\n', dict(file='duke/src/tree/version.rs', line=cst['start_line'], fn='Version::V23')))
+    u.segments.append(('}\n', None))
+    u.fns['Version::V23'] = dict(file='duke/src/tree/version.rs', start_line=cst['start_line'], end_line=cst['end_line'], props=['C01'], safety_props=['C01'], clauses=[], external_body=False, loops=0, name='V23', proof_label=None)
+    u.fn('duke/src/tree/version.rs', 'Version::new', ret='v', ensures=[C('C01.version.new', 'v.major == major && v.minor == minor', props=['C01'])])
+    u.raw('''// TRUSTED: version_gt/ge/lt/le stand for the comparison operators of `impl Ord for Version` (lexicographic on (major, minor)); only used if the source compares whole versions
+pub open spec fn version_key(v: Version) -> int { v.major as int * 65536 + v.minor as int }
+#[verifier::external_body] pub fn version_gt(a: Version, b: Version) -> (r: bool) ensures r == (version_key(a) > version_key(b)) { unimplemented!() }
+#[verifier::external_body] pub fn version_ge(a: Version, b: Version) -> (r: bool) ensures r == (version_key(a) >= version_key(b)) { unimplemented!() }
+#[verifier::external_body] pub fn version_lt(a: Version, b: Version) -> (r: bool) ensures r == (version_key(a) < version_key(b)) { unimplemented!() }
+#[verifier::external_body] pub fn version_le(a: Version, b: Version) -> (r: bool) ensures r == (version_key(a) <= version_key(b)) { unimplemented!() }
+''')
+    reg = region(u, 'read', r'let\s+magic\s*=', r'if\s+version\b', 'magic / version check -> fn check_header(reader)', end_block=True)
+    u.fn(R, 'read::check_header', ret='res', props=['C01'], canary=True,
+         synth=dict(sig='pub fn check_header<Rd: ClassRead>(reader: &mut Rd) -> Result<()>', body='{ ' + reg['text'] + ' Ok(()) }', line=reg['line']),
+         requires=[f'0 <= {p0}'],
+         rewrites=[(r'class_constants::MAGIC', 'MAGIC')],
+         opt_rewrites=[(r'\bversion\s*(>=|>|<=|<)\s*Version::(\w+)', lambda m: 'version_' + {'>': 'gt', '>=': 'ge', '<': 'lt', '<=': 'le'}[m.group(1)] + f'(version, Version::{m.group(2)})')],
+         ensures=[C('C01.header.accepts-exactly-the-magic-and-every-major-up-to-67',
+                    f'res.is_ok() <==> ({p0} + 8 <= {d0}.len() && val32({d0}.subrange({p0}, {p0} + 4)) == 0xCAFEBABE && val16({d0}.subrange({p0} + 6, {p0} + 8)) <= 67)'),
+                  C('C01.header.consumes-8-bytes', f'res.is_ok() ==> final(reader).pos() == {p0} + 8 && final(reader).data() == {d0}')])
+    # ---- (B) first pass over fields and methods (skipped; read later through with_pos)
+    reg = region(u, 'read', r'let\s+fields_start\s*=\s*reader\.marker\(\)', r'match\s+visitor\.visit_class\(', 'the two loops skipping the fields and methods tables -> fn skip_members(reader)')
+    inv = lambda k, base: [
+        C(f'C17.skip_members.inv{k}.position', f'reader.pos() == members_end_k({d0}, {base} + 2, iter.index@ as nat) && reader.pos() >= 0'),
+        C(f'C17.skip_members.inv{k}.frame', f'reader.data() == {d0} && {d0}.len() <= i64::MAX && 0 <= {p0} && iter.seq().len() == val16({d0}.subrange({base}, {base} + 2))'),
+    ]
+    hint = lambda base, k: (f'proof {{ let k = iter.index@ as nat; lemma_attrs_end_nonneg({d0}, pm + 8, val16({d0}.subrange(pm + 6, pm + 8)) as nat); assert(reader.pos() == member_end({d0}, pm)); '
+                         f'assert(members_end_k({d0}, {base} + 2, (k + 1) as nat) == member_end({d0}, members_end_k({d0}, {base} + 2, k))); }}   // [C17.skip_members.inv{k}.position]\n')
+    u.fn(R, 'read::skip_members', ret='res', canary=True,
+         synth=dict(sig='pub fn skip_members<Rd: ClassRead>(reader: &mut Rd) -> Result<u64>', body='{ ' + reg['text'] + ' Ok(fields_start) }', line=reg['line']),
+         requires=[f'0 <= {p0}', f'{d0}.len() <= i64::MAX'],
+         rewrites=[(r'for _ in 0\.\.reader\.read_u16\(\)\?', 'for _i in iter: 0..reader.read_u16()?')],
+         loops={0: dict(invariant=inv(0, p0), body_start='let ghost pm = reader.pos();', body_end=hint(p0, 0)),
+                1: dict(invariant=inv(1, f'table_end({d0}, {p0})') + [C('C17.skip_members.inv1.fields-done', f'table_end({d0}, {p0}) >= 0')],
+                        body_start='let ghost pm = reader.pos();', body_end=hint(f'table_end({d0}, {p0})', 1))},
+         ensures=[C('C17.skip_members.consumes-exactly-both-tables', f'res matches Ok(fs) ==> fs as int == {p0} && final(reader).pos() == members_end({d0}, {p0})'),
+                  C('C17.skip_members.data-untouched', f'final(reader).data() == {d0}')])
+
+    # ---- (C) the attribute loop of the class itself
+    reg = region(u, 'read', r'let\s+\(mut is_deprecated, mut is_synthetic\)', r'class_visitor\.visit_deprecated_and_synthetic_attribute\(',
+                 'the class attribute loop -> fn read_class_attributes(reader, class_visitor, interests, pool)')
+    tr = havoc_interested_arms(u, 'read')
+    declined = 'class_attr_declined(attr_of(attribute_name), interests)'
+    u.fn(R, 'read::read_class_attributes', ret='res',
+         synth=dict(sig='pub fn read_class_attributes<CV: ClassVisitor, Rd: ClassRead>(reader: &mut Rd, class_visitor_in: CV, interests: ClassInterests, pool: &PoolRead) -> Result<CV>',
+                    body='{ let mut class_visitor = class_visitor_in; ' + reg['text'] + ' Ok(class_visitor) }', line=reg['line']),
+         requires=[f'0 <= {p0}', f'{d0}.len() <= i64::MAX'],
+         transform=tr,
+         rewrites=[NAME_EQ, LOOP, (r'let mut bootstrap_methods = None;', 'let mut bootstrap_methods: Option<Vec<BootstrapMethodRead>> = None;')],
+         loops={0: dict(invariant=[C('C17.read_class_attributes.inv.data', f'reader.data() == {d0} && reader.pos() >= 0')], body_start='let ghost p_attr = reader.pos();')},
+         asserts=[(('loop_end', 0), C('C17.read.declined-class-attribute-is-skipped-exactly', f'({declined}) ==> reader.pos() == p_attr + 6 + length'))],
+         ensures=[C('C17.read_class_attributes.data-untouched', f'final(reader).data() == {d0}')])
+    # ---- (D) second pass over fields and methods (the closure given to with_pos)
+    reg = region(u, 'read', r'let\s+fields_count\s*=\s*reader\.read_u16\(\)', r'MultiClassVisitor::finish_class\(visitor, class_visitor\)',
+                 'the body of the closure passed to reader.with_pos(fields_start, ..) -> fn read_members(reader, visitor, class_visitor, interests, pool, bootstrap_methods)', include_end=True)
+    u.item(V + 'mod.rs', 'trait', 'MultiClassVisitor')
+    fbase, mbase = p0, 'pmeth'
+    u.fn(R, 'read::read_members', ret='res',
+         synth=dict(sig='pub fn read_members<MV: MultiClassVisitor, Rd: ClassRead>(reader: &mut Rd, visitor: MV::ClassResidual, class_visitor_in: MV::ClassVisitor, interests: ClassInterests, '
+                        'pool: &PoolRead, bootstrap_methods: Option<Vec<BootstrapMethodRead>>) -> Result<MV>',
+                    body='{ let mut class_visitor = class_visitor_in; ' + reg['text'] + ' }', line=reg['line']),
+         requires=[f'0 <= {p0}', f'{d0}.len() <= i64::MAX'],
+         rewrites=[(r'for _ in 0\.\.fields_count', 'for _i in iter: 0..fields_count'), (r'for _ in 0\.\.methods_count', 'for _i in iter: 0..methods_count'),
+                   (r'let methods_count = reader\.read_u16\(\)\?;', 'let ghost pmeth = reader.pos(); let methods_count = reader.read_u16()?;')],
+         loops={0: dict(invariant=[
+                    C('C17.read_members.fields.inv', f'reader.data() == {d0} && reader.pos() >= 0 && {d0}.len() <= i64::MAX && 0 <= {p0} && fields_count as int == val16({d0}.subrange({p0}, {p0} + 2))'),
+                    C('C17.read_members.fields.declined-fields-are-skipped-exactly', f'!interests.fields ==> reader.pos() == members_end_k({d0}, {p0} + 2, iter.index@ as nat)')],
+                    body_start='let ghost pm = reader.pos();',
+                    body_end=f'proof {{ if !interests.fields {{ let k = iter.index@ as nat; lemma_attrs_end_nonneg({d0}, pm + 8, val16({d0}.subrange(pm + 6, pm + 8)) as nat); assert(reader.pos() == member_end({d0}, pm)); '
+                             f'assert(members_end_k({d0}, {p0} + 2, (k + 1) as nat) == member_end({d0}, members_end_k({d0}, {p0} + 2, k))); }} }}   // [C17.read_members.fields.declined-fields-are-skipped-exactly]\n'),
+                1: dict(invariant=[
+                    C('C17.read_members.methods.inv', f'reader.data() == {d0} && reader.pos() >= 0 && {d0}.len() <= i64::MAX && pmeth >= 0 && methods_count as int == val16({d0}.subrange(pmeth, pmeth + 2)) && (!interests.fields ==> pmeth == table_end({d0}, {p0}))'),
+                    C('C17.read_members.methods.declined-methods-are-skipped-exactly', f'!interests.methods ==> reader.pos() == members_end_k({d0}, pmeth + 2, iter.index@ as nat)')],
+                    body_start='let ghost pm = reader.pos();',
+                    body_end=f'proof {{ if !interests.methods {{ let k = iter.index@ as nat; lemma_attrs_end_nonneg({d0}, pm + 8, val16({d0}.subrange(pm + 6, pm + 8)) as nat); assert(reader.pos() == member_end({d0}, pm)); '
+                             f'assert(members_end_k({d0}, pmeth + 2, (k + 1) as nat) == member_end({d0}, members_end_k({d0}, pmeth + 2, k))); }} }}   // [C17.read_members.methods.declined-methods-are-skipped-exactly]\n')},
+         ensures=[C('C17.read_members.methods-start-where-the-fields-end-when-fields-are-declined',
+                    f'res.is_ok() && !interests.fields && !interests.methods ==> final(reader).pos() == members_end({d0}, {p0})'),
+                  C('C17.read_members.data-untouched', f'final(reader).data() == {d0}')])
